@@ -336,7 +336,7 @@ func (s *muxerStream) handleMediaPlaylist(w http.ResponseWriter, r *http.Request
 						return nil
 					}
 
-					if s.hasContent() && s.hasPart(msnint, partint) {
+					if s.hasContent() && (part != "" || msnint < s.nextSegmentID) && s.hasPart(msnint, partint) {
 						break
 					}
 
